@@ -187,7 +187,7 @@ def mpl_1d_cases(draw, tier="quick"):
         opts["ylabel"] = "custom y"
     if draw(st.integers(0, 4)) == 0:
         opts["ticks"] = draw(st.sampled_from(["center", "edge"]))
-    if kind in ("bar", "scatter") and mode != "both" and draw(st.integers(0, 3)) == 0 and any(x > 0 for x in hgen.flat(spec["freq"])):
+    if kind in ("bar", "scatter") and mode != "both" and draw(st.booleans()) and any(x > 0 for x in hgen.flat(spec["freq"])):
         # colour options: colours themselves are not checked, but the marks must stay put and the histogram untouched
         opts["cmap"] = draw(st.sampled_from(["Greys", "viridis"]))
         if draw(st.booleans()):
@@ -281,7 +281,7 @@ def check_mpl_2d(case, ctx: Ctx):
 
 @st.composite
 def mpl_2d_cases(draw, tier="quick"):
-    kind = draw(st.sampled_from(["map", "map", "map", "image", "polar_map"]))
+    kind = draw(st.sampled_from(["map", "map", "map", "image", "image", "polar_map"]))
     if kind == "polar_map":
         spec = draw(hgen.hist_spec(dims=(2,), dtypes=["int64", "float64"], max_bins=4, adaptive=False, rich_meta=False, forms=("numpy",), gapped=False))
         spec["class"] = "PolarHistogram"
@@ -300,6 +300,14 @@ def mpl_2d_cases(draw, tier="quick"):
                 for k in range(1, len(ps)):
                     ps[k][0] = ps[k - 1][1]
                     ps[k][1] = ps[k][0] + (1.0 if k % 2 else 2.5)
+    if kind == "image" and draw(st.integers(0, 3)) > 0:
+        # image() needs regular bins: most generated axes are irregular (and are refused), so make regular ones on purpose
+        for ax in spec["axes"]:
+            n = len(ax["pairs"])
+            w = draw(st.sampled_from([1.0, 0.5, 2.0, 0.25]))
+            lo = draw(st.sampled_from([0.0, -3.0, 10.0]))
+            ax.clear()
+            ax.update({"form": "numpy", "pairs": [[lo + i * w, lo + (i + 1) * w] for i in range(n)], "incl": True})
     opts = {}
     if draw(st.booleans()):
         opts["density"] = True
@@ -318,7 +326,7 @@ def mpl_2d_cases(draw, tier="quick"):
             opts["ylabel"] = "cy"
     if draw(st.booleans()):
         opts["show_colorbar"] = draw(st.booleans())
-    if kind == "image" and draw(st.integers(0, 2)) == 0 and any(x > 0 for x in hgen.flat(spec["freq"])):
+    if kind == "image" and draw(st.booleans()) and any(x > 0 for x in hgen.flat(spec["freq"])):
         opts["cmap_normalize"] = "log"  # (colours are not checked; the image array and the histogram are)
     return {"kind": kind, "spec": spec, "opts": opts}
 
